@@ -38,7 +38,9 @@ def ident(x):
 
 PLAIN = {"mix": mix, "pair": pair, "mkdict": mkdict, "mklist": mklist, "ident": ident}
 OPS = {"add": operator.add, "sub": operator.sub, "mul": operator.mul, "lt": operator.lt, "ge": operator.ge,
-       "eq": operator.eq, "ne": operator.ne, "neg": operator.neg}
+       "eq": operator.eq, "ne": operator.ne, "neg": operator.neg, "abs": operator.abs,
+       "floordiv": operator.floordiv, "mod": operator.mod}
+AUG = {"add": operator.iadd, "sub": operator.isub, "mul": operator.imul, "floordiv": operator.ifloordiv, "mod": operator.imod}
 LOGIC = {"and": lambda a, b: a and b, "or": lambda a, b: a or b, "not": lambda a: not a}
 
 
@@ -202,7 +204,7 @@ def build(P, attrs, name="top", is_async=False, mc=2, built=None, _counter=None)
                         extra["twz_unpack_to"] = s["unpack"]
                     v = fn_for(s["fn"], s.get("setup", False))(*pos, **kws, **extra)
                 elif s["kind"] == "op":
-                    v = OPS[s["fn"]](*pos)
+                    v = (AUG if s.get("aug") else OPS)[s["fn"]](*pos)     # a op= b for some sites
                 else:
                     v = {"and": and_, "or": or_, "not": not_}[s["fn"]](*pos, **extra)
                 first = v[0] if isinstance(v, tuple) else v
